@@ -995,8 +995,13 @@ def _range_incl_next(ctx, p):
     w = X.INT_TYPES[t][0]
     has = b_and(b_not(done), ex.binop('Le', a, b, t))
     last = ex.binop('Eq', a, b, t)
-    nxt = ite(last, a, ex.binop('Add', a, CI(1, w), t)) if not (isinstance(a, CI) and isinstance(b, CI)) else (a if last else ex.binop('Add', a, CI(1, w), t))
-    ctx.write(p, ('incl', ite(has, nxt, a), b, b_or(done, b_and(has, last), b_not(has))))
+    # the stored start only matters while the range is not exhausted, and then it is a + 1 (kept concrete);
+    # at the type's maximum the element is necessarily the last one
+    at_max = isinstance(a, CI) and a.v == (1 << w) - 1
+    nxt = a if at_max else ex.binop('Add', a, CI(1, w), t)
+    if not isinstance(a, CI):
+        nxt = ite(last, a, ex.binop('Add', a, CI(1, w), t))
+    ctx.write(p, ('incl', nxt, b, b_or(done, b_and(has, last), b_not(has))))
     return mk_option(has, a)
 
 
